@@ -286,7 +286,13 @@ retry_fetch_lv:
 
         // skip callback. will called in findnext
         // expception: if start=end, findnext does not call cb, so need cb here
-        if (range_is_one_point) {
+        // The same holds when start and end differ only below this layer (both continue
+        // behind this slice, but no link for it exists here): findnext takes
+        // "last key == end tuple, inclusive" for an exhausted range.
+        if (range_is_one_point ||
+            (cmp_to_end == 0 && ctx->get_end_point() == scan_endpoint::INCLUSIVE &&
+             key_tup.get_key_length() > sizeof(key_slice_type) &&
+             key_tup == ctx->get_end_tuple(0))) {
             if (bnv_cb(target_border->get_version_ptr(), v_at_fetch_lv)) { return status::WARN_ABORTED_BY_USER; }
         }
 
